@@ -601,7 +601,7 @@ class PipelineBuilder:
                 not have a matching hash.
         """
         cfg = PipelineConfig.model_validate(config)
-        builder = cls()
+        builder = cls(cfg.meta.name, cfg.meta.version)
         for inpt in cfg.inputs:
             types: list[type[Any] | None] = []
             if inpt.types is not None:
